@@ -124,6 +124,17 @@ pub fn input_sets() -> Vec<InputSet> {
             start: "orders.wsdl".into(),
         });
     }
+    // inputs larger than 1 MiB (size thresholds of streaming / buffering paths), one succeeding and one failing
+    {
+        let mut big = String::from("<?xml version=\"1.0\" encoding=\"UTF-8\"?>\n<xs:schema xmlns:xs=\"http://www.w3.org/2001/XMLSchema\" xmlns:l=\"http://example.com/large/types\" elementFormDefault=\"qualified\" targetNamespace=\"http://example.com/large/types\">\n");
+        for i in 0..5200 {
+            big.push_str(&format!("  <xs:complexType name=\"Record{i:05}Type\"><xs:sequence><xs:element name=\"identifier\" type=\"xs:string\"/><xs:element name=\"quantity\" type=\"xs:int\" minOccurs=\"0\"/><xs:element name=\"remark\" type=\"xs:string\" minOccurs=\"0\" maxOccurs=\"unbounded\"/></xs:sequence></xs:complexType>\n"));
+        }
+        let cut = big.len() - 40; // in the middle of the last type
+        v.push(InputSet { name: "large-malformed-start".into(), stage: Some("large-malformed-start"), files: vec![("large.xsd".into(), big.as_bytes()[..cut].to_vec())], start: "large.xsd".into() });
+        big.push_str("</xs:schema>\n");
+        v.push(InputSet { name: "large-ok".into(), stage: None, files: vec![("large.xsd".into(), big.into_bytes())], start: "large.xsd".into() });
+    }
     // an input on which the library panics instead of returning Err (build_restrictions unwraps the value attribute):
     // "fails for any reason" includes this
     v.push(InputSet {
